@@ -56,8 +56,14 @@ def r14_1(prog, out):
                 out.violation(key, bi.loc(blk.idx), "the statuses counted as success are %s: %s%s" % (
                     sorted(got), ("%s must not acknowledge; " % extra) if extra else "", ("%s must acknowledge" % missing) if missing else ""))
         if not found:
-            # range comparisons instead of a match: not recognised
-            out.undecided("success-set:%s" % prog.short(did), prog.loc(did), "no switch on the u16 status found (status classified some other way)")
+            ranges = [(bb, t) for bb, t in bi.calls(lambda c: c.path.startswith("http::StatusCode::is_") or c.path.startswith("reqwest::StatusCode::is_")
+                                                     or c.target.startswith("http::status::StatusCode::is_"))]
+            if ranges:
+                bb, t = ranges[0]
+                out.violation("success-set:%s" % prog.short(did), bi.loc(bb), "success is decided with StatusCode::%s(), a whole status class: statuses outside "
+                              "{102, 200, 201, 202, 204} (e.g. 203, 205, 206) are acknowledged and never pushed again" % t.callee.path.split("::")[-1])
+            else:
+                out.undecided("success-set:%s" % prog.short(did), prog.loc(did), "no switch on the u16 status found (status classified some other way)")
 
 
 @rule("C14", "R14.2", "every dispatch ends in exactly one of ack / nack, ack only on the success arm", floor=1)
@@ -189,11 +195,33 @@ def r14_3(prog, out):
                 out.holds(key + ":unregister", bi.loc(bb), "unregisters the subscription")
             else:
                 s = sl.of(b.id, t.args[2])
-                guard = R.call_result_arm_blocks(bi, lambda cbb, ct: ct.callee.path.endswith("Option::<T>::is_some"), True)
-                if (A.ty("SubscriptionInfo"), "push_config") in s.fields and (bb in guard or True):
+                if (A.ty("SubscriptionInfo"), "push_config") in s.fields:
                     out.holds(key + ":register", bi.loc(bb), "registers the subscription's own push_config")
                 else:
                     out.violation(key + ":register", bi.loc(bb), "a subscription is registered for push with something else than its own push_config")
+                # only on the path on which the subscription is really created: under the vacant arm of the manager's name lookup
+                k3 = key + ":only-when-created"
+                submap = A.cell("SubState", "subscriptions")
+                creators = [x.id for x in prog.facts.lib_bodies() if any(e.touches(submap) and e.kind in L.INSERT_KINDS and not e.chain for e in prog.effects(x.id))]
+                ok = False
+                for cid in creators:
+                    ci = prog.info(cid)
+                    vac = set()
+                    for e in prog.effects(cid):
+                        if not e.chain and e.touches(submap) and e.kind == "handle" and e.lib.endswith("::entry"):
+                            sw_bb = ci.body.blocks[e.bb].term.target
+                            arms = dict(ci.body.blocks[sw_bb].term.arms) if ci.body.blocks[sw_bb].term.k == "switch" else {}
+                            if 1 in arms:
+                                vac |= ci.cfg.edge_dominated(sw_bb, arms[1])
+                    reg = A.cell("PushRegistryState", "push_subscriptions")
+                    for e in prog.effects(cid):
+                        if e.touches(reg) and e.kind in L.INSERT_KINDS and any(cb == b.id for cb, _ in e.chain) and e.bb in vac:
+                            ok = True
+                if ok:
+                    out.holds(k3, bi.loc(bb), "reached only under the vacant arm of the manager's name lookup")
+                else:
+                    out.violation(k3, bi.loc(bb), "a push registration can happen for a CreateSubscription that is then rejected (the name is taken): the existing "
+                                  "subscription of that name is pushed to the endpoint of the rejected request")
     actor, vname, tid = delete_flow(prog)
     did = effect_body(prog, tid)
     di = prog.info(did)
@@ -275,7 +303,14 @@ def r14_5(prog, out):
         s = sl.of(bid, rv.ops[names.index("data")])
         key = "%s:data-base64" % prog.short(bid)
         if any(c.endswith("Engine::encode") for c in s.calls):
-            out.holds(key, prog.loc(bid, bb), "data is base64-encoded")
+            engines = sorted(str(c) for c in s.consts if "base64" in str(c))
+            if engines and all(e.split("::")[-1] == "STANDARD" for e in engines):
+                out.holds(key, prog.loc(bid, bb), "data is base64-encoded with the standard alphabet")
+            elif engines:
+                out.violation(key, prog.loc(bid, bb), "push data is encoded with %s instead of standard base64: payloads containing the 6-bit groups 62/63 "
+                              "do not decode to the published bytes at the endpoint" % engines[0].split("::")[-1])
+            else:
+                out.undecided(key, prog.loc(bid, bb), "base64 engine not recognised")
         else:
             out.violation(key, prog.loc(bid, bb), "data is not base64-encoded in the push payload")
     n = 0
